@@ -1541,7 +1541,7 @@ func c04PayloadWitness(c *Case, r *Run) {
 
 // Output-file layouts: a task that does not allow failure leaves unparsable output files behind
 // (exit code 0) several times, then good ones; a later task of another hook waits behind it.
-func c04OutWitness(c *Case, r *Run) {
+func c04OutWitness(c *Case, r *Run, table bool) {
 	hooks := []c04Hook{{Name: "hook01", Num: 1, Queue: 1, Bindings: []c04Binding{{Name: "b2", Crontab: "1 0 1 1 *"}}},
 		{Name: "hook02", Num: 2, Queue: 1, Bindings: []c04Binding{{Name: "b3", Crontab: "2 0 1 1 *"}}}}
 	p := c04Plan{hooks: hooks, boInit: 20 * time.Millisecond, boStep: 5 * time.Millisecond, maxSteps: 30,
@@ -1555,6 +1555,19 @@ func c04OutWitness(c *Case, r *Run) {
 		{Metrics: `{"name":"verif_w","set":"1"}`, Shape: "metrics:wrong-type-set", Bad: true},
 		{Patch: cm + "}\n", PApply: true, Shape: "patch:stray-closer-last", Bad: true},
 		{Metrics: m + "\n" + m + "\n", Patch: cm, PApply: true, Shape: "valid-output"},
+	}
+	if table {
+		// every member legal, the combination not: nothing applies such an operation
+		outs = []*c04Out{
+			{Metrics: `{"group":"verif_grp","name":"verif_w_h","action":"observe","value":1,"buckets":[1,2]}` + "\n", Shape: "metrics:table-grouped-observe", Bad: true},
+			{Metrics: m + "\n" + `{"name":"verif_w","action":"expire"}` + "\n", Shape: "metrics:table-ungrouped-expire", Bad: true},
+			{Metrics: `{"group":"verif_grp","action":"set","value":1}`, Shape: "metrics:table-grouped-set-without-name", Bad: true},
+			{Metrics: `{"name":"verif_w_h","action":"observe","value":1}` + "\n" + m, Shape: "metrics:table-observe-without-buckets", Bad: true},
+			{Metrics: `{"group":"verif_grp","name":"verif_w_gc","action":"Expire"}`, Shape: "metrics:table-action-wrong-case", Bad: true},
+			{Metrics: `{"group":"verif_grp","name":"verif_w_gg","set":1,"add":1}`, Shape: "metrics:table-set-and-add", Bad: true},
+			{Metrics: `{"group":"verif_grp","name":"verif_w_gc","action":"add","value":1}` + "\n" + `{"group":"verif_grp2","action":"expire","name":null}` + "\n" +
+				`{"name":"verif_w_h","action":"observe","value":1,"buckets":[1,2]}` + "\n" + `{"group":"verif_grp","name":"verif_w_gg","set":2,"action":"observe"}` + "\n", Shape: "valid-output"},
+		}
 	}
 	first := -1
 	p.genOut = func(id, failed int) *c04Out {
@@ -1595,7 +1608,12 @@ func runC04(r *Run) {
 	r.One(7, func(c *Case, _ *Rng) {
 		c.Desc = "corpus: metrics files with a stray closing brace / bracket after good documents, a truncated one, a wrong type; patch file with a stray closer; each then a good output"
 		c.Nontrivial = true
-		c04OutWitness(c, r)
+		c04OutWitness(c, r, false)
+	})
+	r.One(5000000, func(c *Case, _ *Rng) {
+		c.Desc = "corpus: metrics files whose operations are spelled legally but in an unsupported COMBINATION (grouped observe, ungrouped expire, grouped set without name, observe without buckets, action in the wrong case, set+add), exit code 0 each time, then a good output with grouped / ungrouped / shortcut operations; a task of another hook waits behind"
+		c.Nontrivial = true
+		c04OutWitness(c, r, true)
 	})
 	r.One(8, func(c *Case, _ *Rng) {
 		c.Desc = "corpus: two UNNAMED schedule bindings of one hook (both named \"schedule\"), head allowFailure:true, follower allowFailure:false, hook fails twice; CancelTaskDelay() while each run is blocked"
